@@ -32,6 +32,10 @@ func (x *g) iatBatch(odfi string, batchNumber int, kind string, noc bool) (ach.I
 	// everything in front of column 50 stays ASCII: Reader.parseBH looks for "IAT" at bytes 50..53
 	bh.ForeignExchangeIndicator = x.pickStr("FV", "VF", "FF")
 	bh.ForeignExchangeReferenceIndicator = x.pickInt(1, 2, 3)
+	if bh.ForeignExchangeIndicator == "FF" && x.r.Chance(1, 3) {
+		// fixed-to-fixed: the indicator may be left at zero (moov-io/ach issue 1462); the reference is still a field of the record
+		bh.ForeignExchangeReferenceIndicator = 0
+	}
 	if bh.ForeignExchangeReferenceIndicator != 3 {
 		bh.ForeignExchangeReference = x.text(15, aIdentASCII)
 	}
